@@ -339,6 +339,23 @@ func (e *env) catalogue() []kase {
 		tx.Scripts = append(tx.Scripts, tx.Scripts[0])
 		ks = append(ks, kase{name: "invalid:duplicate-signer", tx: tx, viaRaw: tx.Bytes()})
 	}
+	// the same account twice among the signers, every witness present and paid for, the repeat at various positions
+	for _, d := range []struct {
+		name string
+		idx  []int
+	}{{"adjacent", []int{0, 0}}, {"first-and-last-of-three", []int{0, 1, 0}}, {"last-two-of-three", []int{0, 1, 1}}, {"second-and-last-of-four", []int{1, 0, 2, 0}}} {
+		var dsg []neotest.Signer
+		for _, i := range d.idx {
+			dsg = append(dsg, e.singles[i])
+		}
+		tx := e.build(dsg, scr(), nil, nil)
+		// the wallet signs the first position of an account only: one witness per signer, by hand
+		tx.Scripts = tx.Scripts[:0]
+		for _, s := range dsg {
+			tx.Scripts = append(tx.Scripts, transaction.Witness{InvocationScript: s.SignHashable(uint32(p.BC.GetConfig().Magic), tx), VerificationScript: s.Script()})
+		}
+		ks = append(ks, kase{name: "invalid:duplicate-signer:" + d.name, tx: tx, viaRaw: tx.Bytes()})
+	}
 	{
 		tx := e.build(sg, scr(), nil, nil)
 		tx.Version = 1
